@@ -52,7 +52,8 @@ func ParseMediaType(s string) (MediaType, error) {
 	}
 	values = strings.Split(values[0], "/")
 
-	if len(values) == 1 {
+	if len(values) == 1 || values[0] == "" || values[1] == "" {
+		// Both the type and the subtype are required
 		return MediaType{}, errors.New("invalid media type")
 	}
 
